@@ -113,6 +113,9 @@ func streamDispatch(c *ctx) {
 					fam = []int{3, 4}
 				}
 			}
+			if c.r.intn(3) == 0 { // a key restricted to one operation of the pair (verify-only, decrypt-only, ...)
+				fam = []int{fam[c.r.intn(2)], fam[c.r.intn(2)]}
+			}
 			// in each Go form a constructed key may hold the list
 			switch c.r.intn(4) {
 			case 0:
